@@ -19,7 +19,20 @@ pub fn install_panic_hook() {
             .map(|l| {
                 let f = l.file();
                 // strip to repo-relative path where possible
-                let f = f.strip_prefix("/repo/").unwrap_or_else(|| f.find("/pallas-").map(|i| &f[i + 1..]).unwrap_or(f));
+                // repo-relative for pallas sources, crate-relative for registry / toolchain sources, so that a
+                // signature does not carry host-specific directories
+                let f = f.strip_prefix("/repo/").unwrap_or_else(|| {
+                    if let Some(i) = f.find("/registry/src/") {
+                        let rest = &f[i + "/registry/src/".len()..];
+                        rest.find('/').map(|j| &rest[j + 1..]).unwrap_or(rest)
+                    } else if let Some(i) = f.find("/pallas-") {
+                        &f[i + 1..]
+                    } else if let Some(i) = f.find("/library/") {
+                        &f[i + 1..]
+                    } else {
+                        f
+                    }
+                });
                 f.to_string()
             })
             .unwrap_or_else(|| "?".into());
@@ -635,7 +648,7 @@ pub fn run_check(def: &CheckDef, opts: &Opts) -> i32 {
             write_replay(&opts.out, prop, b.scenario.name(), opts.seed, f.idx, f.entropy, &fin, &sig, m.reruns, f.values.len())
         } else {
             // could not reproduce from the tape → harness nondeterminism
-            eprintln!("HARNESS-ERROR: violation {} did not reproduce from its tape", sig);
+            eprintln!("HARNESS-ERROR: violation {} did not reproduce from its tape (tape run gave {:?}; {} -> {} values)", sig, fin.violation.as_ref().map(|v| v.signature(prop)), f.values.len(), m.values.len());
             exit = 2;
             continue;
         };
